@@ -12,7 +12,11 @@ Record case := mkCase {
   c_id : N;
   c_svc : N;
   c_trace : list (N * input);      (* picks filled in from the observation *)
-  c_obs : list ostep
+  c_obs : list ostep;
+  (* the real library on the scenario's client addresses: (connection, class of its
+     net.IP.String(), class of its RemoteAddr().String()) - two connections are in one class
+     exactly when the strings are equal *)
+  c_keys : list (N * N * N)
 }.
 
 (* compact constructors for the shards *)
@@ -49,7 +53,19 @@ Definition obs_outs (c : case) : list outs :=
   map (fun s : ostep => (fst s, map (fun e => (oe_conn e, mkEv (oe_type e) (oe_arg e))) (snd s))) (c_obs c).
 
 (* ---------- correspondence: the model (shared state and all) predicts every step ---------- *)
+Fixpoint dedup (l : list N) : list N :=
+  match l with [] => [] | x :: r => if memN x r then dedup r else x :: dedup r end.
+Definition trace_ids (tr : list (N * input)) : list N := dedup (map fst tr).
+
+(* the model's host key / peer key identify exactly the client addresses the library prints alike *)
+Definition keys_ok (c : case) : bool :=
+  forallb (fun i => memN i (map (fun p : N * N * N => fst (fst p)) (c_keys c))) (trace_ids (c_trace c)) &&
+  forallb (fun p : N * N * N => forallb (fun q : N * N * N =>
+     Bool.eqb (ip_of (fst (fst p)) =? ip_of (fst (fst q))) (snd (fst p) =? snd (fst q)) &&
+     Bool.eqb (peer_of (fst (fst p)) =? peer_of (fst (fst q))) (snd p =? snd q)) (c_keys c)) (c_keys c).
+
 Definition model_ok (c : case) : bool :=
+  keys_ok c &&
   list_eqb outs_eqb (map norm_outs (svc_run (c_svc c) (c_trace c))) (map norm_outs (obs_outs c)).
 
 Definition mismatches (cs : list case) : list N :=
@@ -73,10 +89,6 @@ Definition svc_port (svc conn : N) : N :=
   else if svc =? SVC_TFTP then 69 else if svc =? SVC_TELNET then 23 else if svc =? SVC_REDIS then 6379
   else if svc =? SVC_MEMCACHED then 11211 else if svc =? SVC_HTTP then 80 else if svc =? SVC_MCUDP then 11211
   else (* SVC_SMTP2 *) if N.even conn then 587 else 25.
-
-Fixpoint dedup (l : list N) : list N :=
-  match l with [] => [] | x :: r => if memN x r then dedup r else x :: dedup r end.
-Definition trace_ids (tr : list (N * input)) : list N := dedup (map fst tr).
 
 (* the session alone: its own inputs, every scheduling choice resolved to itself *)
 Definition alone (i : N) (tr : list (N * input)) : list (N * input) :=
